@@ -104,6 +104,13 @@ def three_ways_side_check(r, tier):
         (0, "lambda e: lambda a, b: a", "pass"), (0, "lambda e: e.f(lambda a, b=(1, 2): a[0:1], 3)", "pass"), (1, "lambda e: e.jets.Select(lambda a, b: a)", "pass"),
         (0, "lambda e: e.pt + ev.jets()", "pass"), (0, "lambda e: hit.weight + value.jets(1) + ctx", "pass"), (2, "lambda e: ev.met() > j.pt()", "pass"),
         (1, "lambda e: ev.jets().Select(lambda q: hit.pt())", "pass"),
+        # python values have a python type even on an untyped stream: their methods are left exactly as written
+        (0, "lambda e: 'a'.encode()", "pass"), (0, "lambda e: 'a b'.split(sep=e.x)", "pass"), (0, "lambda e: 'abc'.startswith(e.x)", "pass"), (0, "lambda e: ' a '.strip()", "pass"),
+        (0, "lambda e: len(e.jets).to_bytes()", "pass"), (0, "lambda e: '{}'.format(e.x)", "pass"), (0, "lambda e: 'abc'.x[1](2)", "pass"), (0, "lambda e: (1.5).is_integer()", "pass"),
+        (0, "lambda e: ('a' + 'b') if e.ok else 'c'", "pass"), (2, "lambda e: ('a' + e.name).startswith('ab')", "ValueError"),
+        (0, "lambda e: {'a': e.x}[[1]]", "ValueError"), (1, "lambda e: {'a': e.x}[[1]]", "ValueError"),
+        # the one parameter may be positional-only; anything that is not exactly one positional parameter is refused
+        (0, "lambda e, /: e.x", "pass"), (1, "lambda e, /: e.jets", "pass"), (0, "lambda *e: e", "ValueError"), (0, "lambda e, *, k=1: e.x", "ValueError"), (0, "lambda e, f: e.x", "ValueError"),
     ]
     nfixed = len(fixed)
     expect = {len(cases) + i: f[2] for i, f in enumerate(fixed)}
